@@ -11,6 +11,7 @@ import Robsd.Model.Exec
 import Robsd.Model.Clean
 import Robsd.Model.Orch
 import Robsd.Model.Flock
+import Robsd.Model.Arena
 /-
   robsd_model: the executable models behind a line protocol.
   One request per line: `<component> <op> <args…>`; byte strings are hex
@@ -165,8 +166,43 @@ def flockRun (c0 : Bytes) (sched : List Nat) (specs : List PSpec) : String :=
     | none => "-"
   s!"{toHex s.content} " ++ ",".intercalate (s.order.map toString) ++ " " ++ " ".intercalate outs
 
+
+def arenaOp (t : String) : Option Arena.Op :=
+  let n := fun (x : String) => x.toNat?.getD 0
+  match t.splitOn ":" with
+  | "E" :: [] => some .enter
+  | "L" :: [] => some .leave
+  | "M" :: k :: sz :: [] => some (.malloc (n k) (n sz))
+  | "C" :: k :: sz :: [] => some (.calloc (n k) (n sz))
+  | "S" :: k :: h :: [] => some (.str (n k) (hexArg h))
+  | "U" :: k :: [] => some (.cleanup (n k))
+  | "R" :: k :: id :: old :: sz :: [] => some (.realloc (n k) (n id) (n old) (n sz))
+  | "W" :: id :: i :: v :: [] => some (.write (n id) (n i) (UInt8.ofNat (n v)))
+  | _ => none
+
+def arenaRun (p : Arena.Params) (ops : List Arena.Op) : String :=
+  let rec go (s : Arena.St) (ops : List Arena.Op) (acc : List String) : List String × Arena.St :=
+    match ops with
+    | [] => (acc.reverse, s)
+    | op :: rest =>
+      let (s', o) := Arena.step p s op
+      let st := match s'.frames with
+        | f :: _ => s!"{s'.frames.length}:{f.len}:{f.size}:{s'.blocks.length}"
+        | [] => s!"0:0:0:{s'.blocks.length}"
+      let os := match o with
+        | .unit => "u" | .ptr id h off => s!"p:{id}:{h}:{off}" | .trap => "trap" | .bad => "bad" | .fail => "fail"
+      if o == .trap then ((os :: acc).reverse, s)
+      else go s' rest (s!"{os}/{st}" :: acc)
+  let (outs, s) := go (Arena.init p) ops []
+  ";".intercalate outs ++ " ran=" ++ ",".intercalate (s.ran.map toString)
+
 def handle (ws : List String) : String :=
   match ws with
+  | "arena" :: hdr :: fsz :: pz :: csz :: ops :: [] =>
+    let n := fun (x : String) => x.toNat?.getD 0
+    let p : Arena.Params := ⟨n hdr, n fsz, n pz, n csz⟩
+    let os := (listOf ops).filterMap arenaOp
+    arenaRun p os
   | "flock" :: c0 :: sched :: specs => flockRun (hexArg c0) (natList sched) (specs.filterMap pspecOf)
   | "orchp" :: "accepts" :: ncpu :: skip :: evs :: [] =>
     let c : Orch.Cfg := ⟨ncpu.toNat?.getD 1, fun j => (natList skip).contains j⟩
